@@ -196,6 +196,20 @@ def predicates(ctx, cfg, env, td, B):
             p.check("quota", bool((td["to_choose"] == cfg["k"]).all()), "to_choose != configured")
             d = (td["locs"][:, :, None] - td["locs"][:, None]).norm(dim=-1)
             p.check("orig_distances", bool(((td["orig_distances"] - d).abs() < 1e-5).all()) if "orig_distances" in keys else True, "orig_distances is not the pairwise distance matrix")
+    elif name in ("dpp", "mdpp"):
+        if need("locs", "probe", "action_mask"):
+            am = td["action_mask"].reshape(B, -1)
+            N = am.shape[1]
+            if name == "dpp":
+                pr = td["probe"].reshape(B, -1).long()
+                p.check("probe_in_range", in_range(pr, 0, N - 1), "probing port index outside the grid")
+                p.check("probe_not_offered", not bool(am.gather(1, pr).any()), "the probing port is offered by the instance's initial mask")
+                n_forbidden = (~am).sum(1)
+                p.check("keepout_count", bool(((n_forbidden >= cfg["kmin"]) & (n_forbidden <= cfg["kmax"] + 1)).all()), f"number of masked cells {n_forbidden.tolist()[:4]} outside [num_keepout_min, num_keepout_max + 1 probing port]")
+            else:
+                prm = td["probe"].reshape(B, -1).bool()
+                p.check("probes_present", bool((prm.sum(1) >= 1).all()), "an instance without probing ports")
+            p.check("some_cell_allowed", bool(am.any(1).all()), "no cell is allowed")
     elif name == "mcp":
         if need("membership", "weights", "n_sets_to_choose"):
             m = td["membership"]
